@@ -70,7 +70,7 @@ _PollingLFPSBurst  = LFPSTiming(t_typ=1.0e-6,  t_min=0.6e-6, t_max=1.4e-6)
 _PollingLFPSRepeat = LFPSTiming(t_typ=10.0e-6, t_min=6.0e-6, t_max=14.0e-6)
 _PollingLFPS       = LFPS(burst=_PollingLFPSBurst, repeat=_PollingLFPSRepeat)
 
-_PingLFPSBurst     = LFPSTiming(t_min=40.0e-9, t_max=160.0e-9)
+_PingLFPSBurst     = LFPSTiming(t_min=40.0e-9, t_max=200.0e-9)
 _PingLFPSRepeat    = LFPSTiming(t_typ=200e-3, t_min=160e-3, t_max=240.0e-3)
 _PingLFPS          = LFPS(burst=_PingLFPSBurst, repeat=_PingLFPSRepeat)
 
